@@ -169,4 +169,16 @@ theorem C09_guard_facts :
     (∀ b, Facts.globalGate b = !b) := by
   simp [Facts.suppressNew, Facts.deliverSrcErr, Facts.verifyOnUpdate, Facts.initialSkipVerify, Facts.globalGate]
 
+/-- The no-monitor fast path (no watching source) obeys the same contract: nothing is verified
+without the delay, and with it the installed config is verified exactly once, its config and serial
+are returned on success and the error on failure. -/
+theorem C09_nowatch_path (W : World) (P : Params) (v : Version) :
+    (P.delay = false → enableNoWatch W P v = (.enableOk v, [])) ∧
+    (P.delay = true → W.valid v.cfg = true → enableNoWatch W P v = (.enableOk v, [.verify v.cfg true true])) ∧
+    (P.delay = true → W.valid v.cfg = false → enableNoWatch W P v = (.enableErr, [.verify v.cfg false true])) := by
+  refine ⟨?_, ?_, ?_⟩
+  · intro h; simp [enableNoWatch, h]
+  · intro h hv; simp [enableNoWatch, h, hv]
+  · intro h hv; simp [enableNoWatch, h, hv]
+
 end Dials.C09
